@@ -25,7 +25,16 @@ def gen_problem(rng, streams=('tame', 'tree', 'cons', 'dv', 'conn', 'conn-dv'), 
     elif s == 'tree':
         spec = gen.gen_tree(rng, depth=3)
     elif s == 'shared':
-        spec = gen.gen_shared(rng)
+        # shared options / options that are start nodes - but not two choices of the same originating node offering
+        # the same option node: their origin -> option edges cannot be told apart in an instance (and the library's
+        # handling of that construct is the known finding KF-C02-shared-option-same-origin)
+        for _ in range(50):
+            spec = gen.gen_shared(rng)
+            origins = [c['o'] for c in spec['sel']]
+            amb = any(ci != cj and a['o'] == b_['o'] and set(a['opts']) & set(b_['opts'])
+                      for ci, a in enumerate(spec['sel']) for cj, b_ in enumerate(spec['sel']))
+            if not amb:
+                break
     elif s == 'cons':
         from .props import c13
         spec, _ = c13.gen_cons_spec(rng)
